@@ -594,8 +594,6 @@ def _literal(draw, typ, coded, path, rot):
             return _pick(draw, [f"({abs(val)}.0_r_def)",
                                 f"1.0_r_def*{abs(val)}.0_r_def",
                                 f"-({abs(val)}.0_r_def)"], rot)
-        if form == 8:
-            return f"{val}.0_R_DEF"
         if form == 7 and not coded:
             return f"{val}.0"
         if form == 6:
